@@ -5,6 +5,7 @@
 // through the YACLIB_VERIF hooks and enumerates every schedule of `Body(cell)` within the bounds.
 #pragma once
 
+#include <atomic>
 #include <cstdarg>
 #include <cstdint>
 #include <cstdio>
@@ -83,6 +84,36 @@ void DeadRegion(const void* p, std::size_t n, const char* oracle);
 std::uint64_t AllocCount();
 // Live blocks allocated during this execution.
 std::int64_t AllocLive();
+
+// Folds a value an oracle depends on into the state fingerprint of the execution (see engine.cpp,
+// partial-order fingerprint): states that differ in it are never merged by the state cache.
+void Fold(std::uint64_t value);
+
+// Cross-fiber observation variable of a harness.  Not a scheduling point, never a data race (relaxed
+// std::atomic), and every access is folded into the state fingerprint.
+class Shared {
+ public:
+  explicit Shared(int id, int v = 0) : _id{id}, _v{v} {
+  }
+  int Get() const {
+    const int v = _v.load(std::memory_order_relaxed);
+    Fold((static_cast<std::uint64_t>(_id) << 40) ^ (static_cast<std::uint64_t>(static_cast<unsigned>(v)) << 8) ^ 1);
+    return v;
+  }
+  void Set(int v) {
+    _v.store(v, std::memory_order_relaxed);
+    Fold((static_cast<std::uint64_t>(_id) << 40) ^ (static_cast<std::uint64_t>(static_cast<unsigned>(v)) << 8) ^ 2);
+  }
+  int Add(int d) {
+    const int v = _v.fetch_add(d, std::memory_order_relaxed) + d;
+    Fold((static_cast<std::uint64_t>(_id) << 40) ^ (static_cast<std::uint64_t>(static_cast<unsigned>(v)) << 8) ^ 3);
+    return v;
+  }
+
+ private:
+  int _id;
+  std::atomic<int> _v;
+};
 
 // ---- bounds requested on the command line, visible to harnesses that adapt ----------------------
 struct Bounds {
